@@ -271,7 +271,16 @@ func genHTMLElem(r *hx.Rand, depth int) string {
 	tag := hx.Pick(r, []string{"div", "span", "p", "a", "link", "meta", "img", "time", "data", "meter", "object", "audio", "li", "ul", "td", "b", "section", "body"})
 	var at []string
 	add := func(name, val string) {
-		at = append(at, fmt.Sprintf(`%s="%s"`, name, strings.ReplaceAll(val, `"`, "&quot;")))
+		switch k := r.Intn(16); {
+		case k == 0: // attribute without a value
+			at = append(at, name)
+		case k == 1 && !strings.ContainsAny(val, "'"):
+			at = append(at, fmt.Sprintf(`%s='%s'`, name, val))
+		case k == 2 && val != "" && isASCII(val) && !strings.ContainsAny(val, " \t\n\"'=<>`"):
+			at = append(at, fmt.Sprintf(`%s=%s`, name, val))
+		default:
+			at = append(at, fmt.Sprintf(`%s="%s"`, name, strings.ReplaceAll(val, `"`, "&quot;")))
+		}
 	}
 	rdfaAttrs := []string{"about", "resource", "href", "src", "typeof", "property", "rel", "rev", "content", "datatype", "inlist", "prefix", "vocab", "lang", "xml:lang", "datetime"}
 	for i, n := 0, r.Intn(4); i < n; i++ {
